@@ -14,6 +14,11 @@ claimed = {
          "Every pair of version configurations over a universe of 3 (quick) / 4 (thorough) versions including legacy fields on either side, GRPCServer nil/set, per-version protocols, and missing / junk / duplicated version lists; oracle: announced = highest common version else plugin's lowest, both sides use the set registered under it, protocol is that set's, incompatible => Start fails with the incompatible-version error and the plugin is killed. Multi-candidate pairs repeated for map-order variation.",
          "Trusts: reference max(H∩P); the harness's one-line replica of Serve's Printf (bound to a real Serve by C16); map iteration order is sampled by repetition, not controlled.",
          "DESIGN.md §3 C02"),
+ "C04": ("model_checking",
+         "stateless deviation-bounded exploration of Kill / CleanupClients on the real Client against a scripted plugin process (failure-domain model) under a controlled scheduler and virtual clock",
+         "9 plugin shutdown behaviours (exit at once / 1 s / 1.9 s, ignore, frozen, crashed, no handshake, busy, busy+ignore) x {net/rpc, gRPC, gRPC+mux} x {Kill, Kill;Kill, 2 (thorough 3) concurrent Kills, CleanupClients over 3 managed clients in mixed states} under every schedule / timer order / select choice with <= 2 (thorough 3) deviations; oracle: every call returns, the process is gone and Exited() is true afterwards, latency within the grace bound, exits-within-grace plugins are never killed while alive and run their deferred cleanup, ignoring plugins are force-killed, no panic.",
+         "Trusts: the failure-domain process model (exit closes descriptors, freeze stops goroutines and reads); real-process cells (zombie/pid, SIGSTOP) are not yet covered here; latency/graceful verdicts only without TIME deviation.",
+         "DESIGN.md §3 C04"),
  "C05": ("fault_enumeration",
          "exhaustive enumeration of start-failure causes through the real Client.Start with a scripted runner under virtual time",
          "Every single-coordinate (thorough: pair) failure of the handshake line plus silence-until-timeout, partial line, exit before output, EOF without newline and oversize line, x 72 client configurations; oracle: whenever Start returns an error after launch the runner's Kill had been invoked by then, a following Kill returns within 3 s and removes the plugin-dir* directory, nothing stays blocked.",
